@@ -17,7 +17,7 @@ fn spec_cmp(a: &Vc, b: &Vc) -> Option<Ordering> {
     }
 }
 
-//@ harness props=C10 bounds=thorough:big covers=3,4,5 name=partial_cmp is the pointwise order; concurrent iff neither dominates
+//@ harness props=C10 bounds=thorough:big xcheck=1 covers=3,4,5 name=partial_cmp is the pointwise order; concurrent iff neither dominates
 #[no_mangle]
 pub fn h_c10_cmp(inp: &Inp) -> u8 {
     let mut i = In::new(inp);
@@ -52,7 +52,7 @@ pub fn h_c10_cmp(inp: &Inp) -> u8 {
     }
 }
 
-//@ harness props=C10 bounds=thorough:big name=order laws on three clocks: reflexive, antisymmetric, transitive
+//@ harness props=C10 bounds=thorough:big xcheck=1 name=order laws on three clocks: reflexive, antisymmetric, transitive
 #[no_mangle]
 pub fn h_c10_laws(inp: &Inp) -> u8 {
     let mut i = In::new(inp);
@@ -83,7 +83,7 @@ pub fn h_c10_laws(inp: &Inp) -> u8 {
     1
 }
 
-//@ harness props=C10 bounds=thorough:big name=merge is the least upper bound, commutative and idempotent
+//@ harness props=C10 bounds=thorough:big xcheck=1 name=merge is the least upper bound, commutative and idempotent
 #[no_mangle]
 pub fn h_c10_merge(inp: &Inp) -> u8 {
     let mut i = In::new(inp);
@@ -113,7 +113,7 @@ pub fn h_c10_merge(inp: &Inp) -> u8 {
     1
 }
 
-//@ harness props=C10 bounds=thorough:big name=glb is the greatest lower bound and stores no zero
+//@ harness props=C10 bounds=thorough:big xcheck=1 name=glb is the greatest lower bound and stores no zero
 #[no_mangle]
 pub fn h_c10_glb(inp: &Inp) -> u8 {
     let mut i = In::new(inp);
@@ -138,7 +138,7 @@ pub fn h_c10_glb(inp: &Inp) -> u8 {
     1
 }
 
-//@ harness props=C10,C18 bounds=thorough:big name=reset_remove(c) keeps exactly the entries strictly newer than c
+//@ harness props=C10,C18 bounds=thorough:big xcheck=1 name=reset_remove(c) keeps exactly the entries strictly newer than c
 #[no_mangle]
 pub fn h_c10_reset_remove(inp: &Inp) -> u8 {
     let mut i = In::new(inp);
@@ -191,7 +191,7 @@ pub fn h_c10_reset_remove(inp: &Inp) -> u8 {
     1
 }
 
-//@ harness props=C10 bounds=thorough:big name=intersection keeps exactly the equal entries
+//@ harness props=C10 bounds=thorough:big xcheck=1 name=intersection keeps exactly the equal entries
 #[no_mangle]
 pub fn h_c10_intersection(inp: &Inp) -> u8 {
     let mut i = In::new(inp);
@@ -210,7 +210,7 @@ pub fn h_c10_intersection(inp: &Inp) -> u8 {
     1
 }
 
-//@ harness props=C10,C16 bounds=thorough:big covers=3,4 name=apply / inc / validate_op / get / dot on an arbitrary clock and dot
+//@ harness props=C10,C16 bounds=thorough:big xcheck=1 covers=3,4 name=apply / inc / validate_op / get / dot on an arbitrary clock and dot
 #[no_mangle]
 pub fn h_c10_apply(inp: &Inp) -> u8 {
     let mut i = In::new(inp);
@@ -273,7 +273,7 @@ pub fn h_c10_apply(inp: &Inp) -> u8 {
     }
 }
 
-//@ harness props=C10 bounds=thorough:big name=From<Dot>, FromIterator, iter, is_empty agree with the pointwise view
+//@ harness props=C10 bounds=thorough:big xcheck=1 name=From<Dot>, FromIterator, iter, is_empty agree with the pointwise view
 #[no_mangle]
 pub fn h_c10_ctor(inp: &Inp) -> u8 {
     let mut i = In::new(inp);
@@ -324,7 +324,7 @@ pub fn h_c10_ctor(inp: &Inp) -> u8 {
     1
 }
 
-//@ harness props=C10 bounds=thorough:big covers=3 name=Dot partial order relates dots of one actor only
+//@ harness props=C10 bounds=thorough:big xcheck=1 covers=3 name=Dot partial order relates dots of one actor only
 #[no_mangle]
 pub fn h_c10_dot(inp: &Inp) -> u8 {
     let mut i = In::new(inp);
